@@ -15,6 +15,9 @@ LEVEL = 'model_checking'
 
 PRE = """
 int gq = 5;
+byte gi = 1;
+int gw = 1;
+int setg(int v) { gi = v is byte; gw = v; write('s'); return 7; }
 int own(int n) { int[] loc = [n, n + 1, n + 2]; return loc[0] + loc[2]; }
 int rec(int d) { int[] loc = [d, d]; if (d <= 0) { return loc[1]; } return rec(d - 1) + loc[0]; }
 int el(int v) { write('e'); return v; }
@@ -73,8 +76,13 @@ ACTIONS = {
     'trystop': lambda t: "try { write('t'); !d1(n); write('y'); } stop { write('s'); }",
     'nestlit': lambda t: "int[] inner = [el(n), own(n), 9]; write(inner[1]);",
     'nothing': lambda t: "",
+    # the index is a mutable global which the right-hand side reassigns: the checked index is the one that is used
+    'gidx': lambda t: {'int': "gi = 1; a[gi] = setg(i); write(a[1]); gw = 1; a[gw] += setg(i); write(a[1]);",
+                       'byte': "gi = 1; a[gi] = setg(i) is byte; write(a[1] is int); gi = 1; a[gi] += setg(i) is byte; write(a[1] is int); gw = 1; a[gw] = setg(i) is byte;",
+                       'bool': "gi = 1; a[gi] = setg(i) > 3; write(a[1]); gw = 1; a[gw] = setg(i) < 3; write(a[1]);",
+                       'string': None}[t],
 }
-NEEDS_ARRAY = {'index', 'pass', 'incr', 'writearr'}
+NEEDS_ARRAY = {'index', 'pass', 'incr', 'writearr', 'gidx'}
 
 
 def programs():
